@@ -197,6 +197,7 @@ def mk_replay(zero, a, b, idx, r, fy, fx, fail):
 def run(ctx):
     rng = ctx.rng
     ctx.check_theorems()
+    ctx.check_theorems_reals('C17R')   # polar/cartesian round trip over R (real-number axioms of the standard library)
     ctx.check_generated(['qlat', 'vidx'])
     exprs, meta = [], []
     for k in range(ctx.n(150, 1500)):
